@@ -12,6 +12,7 @@ import (
 	"time"
 
 	"github.com/dominant-strategies/go-quai/common"
+	"github.com/dominant-strategies/go-quai/core"
 	"github.com/dominant-strategies/go-quai/core/types"
 
 	"verifharness/hlib"
@@ -48,10 +49,13 @@ type BlockJS struct {
 	Parent int     `json:"parent"` // index into Case.Blocks; genesis: -1
 	State  StateJS `json:"state"`
 	Txs    []int   `json:"txs"`
+	// Skip: number of empty blocks (carrying the parent's state) between Parent and this block,
+	// built but never announced: the head event jumps over them (number = parent's + Skip + 1)
+	Skip int `json:"skip,omitempty"`
 }
 
 type OpJS struct {
-	K     string `json:"k"` // add | gas | head | bad | sleep
+	K     string `json:"k"` // add | gas | head | bad | sleep | evict
 	G     int    `json:"g,omitempty"`
 	Local bool   `json:"local,omitempty"`
 	One   bool   `json:"one,omitempty"` // use the single-transaction entry point (AddLocal / AddRemote)
@@ -60,6 +64,8 @@ type OpJS struct {
 	Block int    `json:"block,omitempty"`
 	Bad   string `json:"bad,omitempty"`
 	Ms    int    `json:"ms,omitempty"`
+	Acct  int    `json:"acct,omitempty"` // evict: the account whose list expires
+	Side  string `json:"side,omitempty"` // evict: "q" (queue, by heartbeat) | "p" (pending, by first-seen time)
 	// observed
 	Verdicts []int `json:"verdicts,omitempty"`
 	Snap     *Snap `json:"snap,omitempty"`
@@ -76,6 +82,9 @@ type Case struct {
 	Alts   [][]int   `json:"alts,omitempty"` // concurrent cases: candidate linearisations (op indices)
 	Final  *Snap     `json:"final,omitempty"`
 	Note   string    `json:"note,omitempty"`
+	// sequential cases: the pool runs with a fast eviction ticker (Lifetime stays one hour), so
+	// that "evict" operations -- which make ONE account's expiry test true -- take effect
+	Evictable bool `json:"evictable,omitempty"`
 	// list cases (list.go): one stand-alone txList
 	LStrict bool    `json:"lstrict,omitempty"`
 	LOps    []LOpJS `json:"lops,omitempty"`
@@ -88,6 +97,7 @@ type run struct {
 	u      *universe
 	blocks []*types.WorkObject // parallel to c.Blocks
 	head   int                 // index of the current head block
+	headBeforeExec int         // head before the operation being executed
 	last   *Snap
 	rep    *hlib.Report
 	failed map[string]bool
@@ -102,6 +112,12 @@ func startRun(w *world, c *Case, rep *hlib.Report) *run {
 	u := newUniverse()
 	for _, s := range c.Txs {
 		u.id(s)
+	}
+	if c.Evictable {
+		// the ticker period is read by TxPool.loop when it starts: keep it set until the first barrier has passed
+		evictMu.Lock()
+		old := core.VerifC19SetEvictionInterval(2 * time.Millisecond)
+		defer func() { core.VerifC19SetEvictionInterval(old); evictMu.Unlock() }()
 	}
 	r := newRig(w, theLogger, c.Cfg, c.Blocks[0].State.chain())
 	x := &run{c: c, r: r, u: u, rep: rep, failed: map[string]bool{}, tainted: map[int]bool{}}
@@ -241,7 +257,11 @@ func (x *run) issue(op *OpJS) {
 		x.guard("SetGasPrice", func() { p.SetGasPrice(new(big.Int).SetUint64(op.Price)) })
 	case "head":
 		b := x.c.Blocks[op.Block]
-		wo := x.r.chain.makeBlock(x.blocks[b.Parent], b.State.chain(), x.txs(b.Txs))
+		parent := x.blocks[b.Parent]
+		for i := 0; i < b.Skip; i++ {
+			parent = x.r.chain.makeBlock(parent, x.c.Blocks[b.Parent].State.chain(), nil)
+		}
+		wo := x.r.chain.makeBlock(parent, b.State.chain(), x.txs(b.Txs))
 		for len(x.blocks) <= op.Block {
 			x.blocks = append(x.blocks, nil)
 		}
@@ -253,6 +273,44 @@ func (x *run) issue(op *OpJS) {
 		op.Verdicts = []int{classify(err)}
 	case "sleep":
 		time.Sleep(time.Duration(op.Ms) * time.Millisecond)
+	case "evict":
+		x.issueEvict(op)
+	}
+}
+
+// issueEvict makes the expiry test of the lifetime eviction true for one list of one account
+// (hook: heartbeat resp. first-seen time moved into the past; the pool content is not touched)
+// and waits until the pool's own eviction ticker has removed the list.
+func (x *run) issueEvict(op *OpJS) {
+	p := x.r.pool
+	addr := x.r.w.accts[op.Acct].internal
+	var backdated *types.Transaction
+	armed := false
+	x.guard("evict", func() {
+		if op.Side == "q" {
+			armed = p.VerifC19ExpireQueue(addr)
+		} else {
+			backdated = p.VerifC19ExpirePending(addr)
+			armed = backdated != nil
+		}
+	})
+	if !armed {
+		return // nothing to evict: the model's eviction of an empty list is the identity
+	}
+	deadline := time.Now().Add(barrierTimeout)
+	for {
+		hasP, hasQ := p.VerifC19HasLists(addr)
+		if (op.Side == "q" && !hasQ) || (op.Side != "q" && !hasP) {
+			break
+		}
+		if time.Now().After(deadline) {
+			x.fail("evict:not-evicted:"+op.Side, fmt.Sprintf("account %d: the list whose expiry test is true was not evicted within %s (eviction ticker 2ms)", op.Acct, barrierTimeout))
+			break
+		}
+		time.Sleep(200 * time.Microsecond)
+	}
+	if backdated != nil {
+		backdated.VerifC19SetTime(time.Now()) // the same object may be added again later in the history
 	}
 }
 
@@ -262,17 +320,24 @@ func (x *run) exec(op *OpJS) {
 		return
 	}
 	prev := x.last
+	x.headBeforeExec = x.head
 	x.issue(op)
 	if op.K == "head" {
 		x.head = op.Block
 	}
 	if err := x.r.barrier(barrierTimeout); err != nil {
+		if op.K == "head" && x.r.pool.VerifC19TryLock(2*time.Second) {
+			x.monitorHeadState(x.r.snapshot(x.u), op) // a reset that never read the new head's state
+		}
 		x.reportStall(op.K)
 		return
 	}
 	s := x.r.snapshot(x.u)
 	op.Snap = s
 	x.last = s
+	if op.K == "head" {
+		x.monitorHeadState(s, op)
+	}
 	if op.K == "head" && prev != nil {
 		for a := range s.Accts {
 			if s.Accts[a].SNonce < prev.Accts[a].SNonce {
@@ -284,11 +349,93 @@ func (x *run) exec(op *OpJS) {
 	switch op.K {
 	case "add":
 		x.monitorReplacement(prev, s, op)
+	case "evict":
+		x.monitorEvictOp(prev, s, op)
 	case "bad":
 		if op.Verdicts[0] == VOk {
 			x.fail("validate:accepted-"+op.Bad, "a transaction with "+op.Bad+" was accepted")
 		}
 		x.monitorRejected(prev, s, op)
+	}
+}
+
+// monitorHeadState: at the quiescent point after a head event the pool's view of the chain
+// (currentState nonce / balance of every account, currentMaxGas) is the state of the announced
+// head -- whatever the distance and relation between the old and the new head (extension,
+// reorganisation, jump over more than 64 blocks in either direction). Model-independent
+// counterpart of chain_state_follows_head.
+func (x *run) monitorHeadState(s *Snap, op *OpJS) {
+	st := x.c.Blocks[op.Block].State
+	kind := "near"
+	if d := x.c.num(op.Block) - x.c.num(x.headBeforeExec); d > 64 || d < -64 {
+		kind = "far"
+	}
+	for a := range s.Accts {
+		if s.Accts[a].SNonce != st.Nonce[a] || s.Accts[a].SBal != fmt.Sprint(st.Bal[a]) {
+			x.fail("head:pool-state-not-at-announced-head:"+kind, fmt.Sprintf("after the head event to block %d (number %d, previous head number %d): the pool sees nonce %d balance %s for account %d, the announced head has nonce %d balance %d",
+				op.Block, x.c.num(op.Block), x.c.num(x.headBeforeExec), s.Accts[a].SNonce, s.Accts[a].SBal, a, st.Nonce[a], st.Bal[a]))
+			return
+		}
+	}
+	if s.raw != nil && s.raw.MaxGas != st.MaxGas {
+		x.fail("head:pool-gaslimit-not-at-announced-head:"+kind, fmt.Sprintf("after the head event to block %d: currentMaxGas=%d, the announced head has %d", op.Block, s.raw.MaxGas, st.MaxGas))
+	}
+}
+
+// monitorEvictOp: the exact effect of the lifetime eviction of ONE list (model-independent
+// statement of evict_queue_exact / evict_pending_exact): the list is gone, the account's other
+// list and every list of every other account are unchanged, the hash index lost exactly the
+// evicted transactions, pendingNonces only changed for an evicted pending list (-> state nonce).
+func (x *run) monitorEvictOp(prev, cur *Snap, op *OpJS) {
+	if prev == nil {
+		return
+	}
+	a := op.Acct
+	var gone []int
+	if op.Side == "q" {
+		gone = prev.Accts[a].Queue
+	} else {
+		gone = prev.Accts[a].Pending
+	}
+	goneSet := map[int]bool{}
+	for _, id := range gone {
+		goneSet[id] = true
+	}
+	for i := range cur.Accts {
+		wantP, wantQ, wantPN := prev.Accts[i].Pending, prev.Accts[i].Queue, prev.Accts[i].PNonce
+		if i == a && op.Side == "q" {
+			wantQ = []int{}
+		}
+		if i == a && op.Side != "q" {
+			wantP = []int{}
+			if len(gone) > 0 {
+				wantPN = cur.Accts[i].SNonce
+			}
+		}
+		if fmt.Sprint(cur.Accts[i].Pending) != fmt.Sprint(wantP) {
+			x.fail("evict:"+op.Side+":pending-lists", fmt.Sprintf("eviction of account %d (%s): pending of account %d is %v, expected %v", a, op.Side, i, cur.Accts[i].Pending, wantP))
+		}
+		if fmt.Sprint(cur.Accts[i].Queue) != fmt.Sprint(wantQ) {
+			x.fail("evict:"+op.Side+":queue-lists", fmt.Sprintf("eviction of account %d (%s): queue of account %d is %v, expected %v", a, op.Side, i, cur.Accts[i].Queue, wantQ))
+		}
+		if cur.Accts[i].PNonce != wantPN {
+			x.fail("evict:"+op.Side+":pending-nonce", fmt.Sprintf("eviction of account %d (%s): pendingNonces of account %d is %d, expected %d", a, op.Side, i, cur.Accts[i].PNonce, wantPN))
+		}
+	}
+	var want []int
+	for _, id := range append(append([]int{}, prev.Locals...), prev.Remotes...) {
+		if !goneSet[id] {
+			want = append(want, id)
+		}
+	}
+	got := append(append([]int{}, cur.Locals...), cur.Remotes...)
+	sort.Ints(want)
+	sort.Ints(got)
+	if fmt.Sprint(want) != fmt.Sprint(got) {
+		x.fail("evict:"+op.Side+":hash-index", fmt.Sprintf("eviction of account %d (%s): hash index holds %v, expected %v (before: minus %v)", a, op.Side, got, want, gone))
+	}
+	if len(gone) > 0 {
+		x.rep.Count("evict:" + op.Side + ":nonempty")
 	}
 }
 
@@ -395,8 +542,8 @@ func (x *run) monitorReplacement(prev, cur *Snap, op *OpJS) {
 func (c *Case) num(i int) int {
 	n := 0
 	for c.Blocks[i].Parent >= 0 {
+		n += 1 + c.Blocks[i].Skip
 		i = c.Blocks[i].Parent
-		n++
 	}
 	return n
 }
@@ -404,23 +551,25 @@ func (c *Case) num(i int) int {
 // reorgSets mirrors the walk of TxPool.reset to the common ancestor: the transactions of
 // the abandoned branch (from the old head backwards) and of the adopted branch.
 func (c *Case) reorgSets(old, new int) (discarded, included []int, extension bool) {
-	if c.Blocks[new].Parent == old {
+	if c.Blocks[new].Parent == old && c.Blocks[new].Skip == 0 {
 		return nil, nil, true
 	}
+	// TxPool.reset: "If the reorg is too deep, avoid doing it": more than 64 block NUMBERS apart
+	// (in either direction) and not parent/child -> nothing is re-injected, the state is still reset
+	if d := c.num(old) - c.num(new); d > 64 || d < -64 {
+		return nil, nil, false
+	}
+	// walk to the common ancestor (always a block of the table: the skipped blocks of two
+	// different table entries are different blocks, and they are empty)
 	rem, add := old, new
-	for c.num(rem) > c.num(add) {
-		discarded = append(discarded, c.Blocks[rem].Txs...)
-		rem = c.Blocks[rem].Parent
-	}
-	for c.num(add) > c.num(rem) {
-		included = append(included, c.Blocks[add].Txs...)
-		add = c.Blocks[add].Parent
-	}
 	for rem != add {
-		discarded = append(discarded, c.Blocks[rem].Txs...)
-		rem = c.Blocks[rem].Parent
-		included = append(included, c.Blocks[add].Txs...)
-		add = c.Blocks[add].Parent
+		if c.num(rem) >= c.num(add) {
+			discarded = append(discarded, c.Blocks[rem].Txs...)
+			rem = c.Blocks[rem].Parent
+		} else {
+			included = append(included, c.Blocks[add].Txs...)
+			add = c.Blocks[add].Parent
+		}
 	}
 	return discarded, included, false
 }
@@ -454,6 +603,12 @@ func (c *Case) coqStep(op *OpJS, head int, checked bool) (string, bool) {
 	case "head":
 		d, i, _ := c.reorgSets(head, op.Block)
 		o = fmt.Sprintf("CHead %s %s %s", c.Blocks[op.Block].State.Coq(), coqInts(d), coqInts(i))
+	case "evict":
+		if op.Side == "q" {
+			o = fmt.Sprintf("CEvict [%d] []", op.Acct)
+		} else {
+			o = fmt.Sprintf("CEvict [] [%d]", op.Acct)
+		}
 	default:
 		return "", false
 	}
@@ -532,6 +687,7 @@ var (
 type gen struct {
 	rng *hlib.Rng
 	x   *run
+	big bool // size-limit histories: some transactions carry 33-100 KB of data (2-4 slots)
 }
 
 func pick[T any](r *hlib.Rng, xs []T) T { return xs[r.Intn(len(xs))] }
@@ -779,6 +935,11 @@ func (g *gen) genAdd() OpJS {
 			s = pick(r, g.x.u.specs) // re-submission of a known / dropped / rejected transaction
 		} else {
 			s = g.pickTx(a)
+			if g.big && r.Chance(30) {
+				s.Size = pick(r, []uint64{33000, 33000, 70000, 100000})
+				s.Gas = 21000 + 4*s.Size + pick(r, []uint64{0, 0, 1000})
+				g.x.rep.Count("add:multi-slot-tx")
+			}
 			if i > 0 && r.Chance(50) { // consecutive nonces in one batch
 				prev := g.x.u.specs[op.Txs[i-1]]
 				if prev.From == a {
@@ -824,6 +985,21 @@ func (g *gen) genHead() OpJS {
 		}
 	case 3:
 		base = r.Intn(len(c.Blocks))
+	}
+	// a head that is far away from the current one (catching up after a stall, deep
+	// reorganisation, setHead-like jump back): number distance at and around the 64 of reset
+	skip := 0
+	if r.Chance(7) {
+		d := pick(r, []int{63, 64, 65, 66, 80})
+		if k := d + c.num(cur) - c.num(base) - 1; k > 0 {
+			skip = k
+			g.x.rep.Count(fmt.Sprintf("head:jump:+%d", d))
+		}
+	} else if c.num(cur) > 64 && r.Chance(30) {
+		base = r.Intn(len(c.Blocks)) // back (or across) over a long distance
+		if d := c.num(cur) - c.num(base) - 1; d > 64 {
+			g.x.rep.Count("head:jump:back")
+		}
 	}
 	st := c.Blocks[base].State.clone()
 	var txs []int
@@ -882,7 +1058,7 @@ func (g *gen) genHead() OpJS {
 	} else if r.Chance(35) {
 		st.MaxGas = 5000000
 	}
-	c.Blocks = append(c.Blocks, BlockJS{Parent: base, State: st, Txs: txs})
+	c.Blocks = append(c.Blocks, BlockJS{Parent: base, State: st, Txs: txs, Skip: skip})
 	return OpJS{K: "head", Block: len(c.Blocks) - 1}
 }
 
@@ -890,24 +1066,49 @@ func (g *gen) genBad() OpJS {
 	return OpJS{K: "bad", Bad: pick(g.rng, []string{"chainid", "zone", "external", "qi-noinput"})} // qi-inactive: corpus only (known finding)
 }
 
+// genEvict picks an account that has a list of the chosen side (falls back to any account:
+// the eviction of an empty list must be the identity).
+func (g *gen) genEvict() OpJS {
+	r := g.rng
+	side := "p"
+	if r.Chance(50) {
+		side = "q"
+	}
+	var cands []int
+	for a, v := range g.x.last.Accts {
+		if (side == "q" && len(v.Queue) > 0) || (side == "p" && len(v.Pending) > 0) {
+			cands = append(cands, a)
+		}
+	}
+	if len(cands) == 0 || r.Chance(5) {
+		return OpJS{K: "evict", Acct: r.Intn(g.x.c.NAccts), Side: side}
+	}
+	return OpJS{K: "evict", Acct: pick(r, cands), Side: side}
+}
+
 func genSeqCase(rng *hlib.Rng, w *world, id int, rep *hlib.Report) *Case {
 	n := 2 + rng.Intn(3)
 	c := &Case{ID: id, Kind: "seq", Cfg: genCfg(rng, "seq"), NAccts: n}
+	c.Evictable = rng.Chance(40)
 	c.Blocks = []BlockJS{{Parent: -1, State: genGenesis(rng, n)}}
 	x := startRun(w, c, rep)
 	g := &gen{rng: rng, x: x}
 	nops := 6 + rng.Intn(20)
 	for i := 0; i < nops && !x.stall; i++ {
 		var op OpJS
-		switch rng.Pick(66, 8, 20, 6) {
-		case 0:
-			op = g.genAdd()
-		case 1:
-			op = g.genGas()
-		case 2:
-			op = g.genHead()
-		default:
-			op = g.genBad()
+		if c.Evictable && i > 1 && rng.Chance(14) {
+			op = g.genEvict()
+		} else {
+			switch rng.Pick(66, 8, 20, 6) {
+			case 0:
+				op = g.genAdd()
+			case 1:
+				op = g.genGas()
+			case 2:
+				op = g.genHead()
+			default:
+				op = g.genBad()
+			}
 		}
 		x.exec(&op)
 		c.Ops = append(c.Ops, op)
